@@ -21,8 +21,14 @@ type ChildParams struct {
 
 // NewChild create new instance of child scope
 func NewChild(parent app.Scope, params ChildParams) app.Scope {
-	var sid string
-	parent.AddTasks(1)
+	var (
+		sid        string
+		registered = parent
+	)
+	if err := parent.AddTasks(1); err != nil {
+		// the parent is done and refused the task: Close must not call parent.DoneTask()
+		registered = nil
+	}
 	if params.ContextScope == nil {
 		params.ContextScope = parent.BaseContextScope()
 	}
@@ -44,7 +50,7 @@ func NewChild(parent app.Scope, params ChildParams) app.Scope {
 		params.CID = parent.CID()
 	}
 	return &Scope{
-		parent:       parent,
+		parent:       registered,
 		sid:          sid,
 		cid:          params.CID,
 		ContextScope: params.ContextScope,
